@@ -220,7 +220,7 @@ func init() {
 			c.ruleRatchets("C18")
 			c.ruleAPIMarshalTotal()
 			c.ruleAPIUnmarshalTotal()
-			c.ruleDecodeProduces("E4.decode-produces", []string{"pkg/packet/bgp"}, 200)
+			c.ruleDecodeProduces("E4.decode-produces", []string{"pkg/packet/bgp"}, 150)
 			c.ruleConfigAPISymmetry()
 			c.ruleStatementProvenance()
 			c.ruleCaseRatchet("E4.case-ratchet", []string{"pkg/apiutil", "pkg/config/oc", "pkg/server"}, func(f string) bool {
